@@ -620,7 +620,8 @@ func diffPrints(a, b string) string {
 
 // ---------------------------------------------------------------- generation
 
-var optionSets15 = [][]string{{}, {"SET"}, {"MULTISET"}, {"SetKeys:id"}, {"MERGE"}, {"SET", "MERGE"}, {"MULTISET", "MERGE"}, {"Precision:0.5"}}
+var optionSets15 = [][]string{{}, {"SET"}, {"MULTISET"}, {"SetKeys:id"}, {"MERGE"}, {"SET", "MERGE"}, {"MULTISET", "MERGE"}, {"Precision:0.5"},
+	{"MULTISET", "Precision:1"}, {"SET", "Precision:1"}, {"SetKeys:id", "Precision:0.5"}, {"SET", "SetKeys:id"}, {"Precision:1", "MERGE"}}
 
 func genCase15(c *Chooser) C15Case {
 	g := genCfg(c)
@@ -645,6 +646,34 @@ func genCase15(c *Chooser) C15Case {
 		long := func(i int) *Val { return vs(strings.Repeat(string(rune('p'+i)), 130+i) + "-long") }
 		a.set("longs", &Val{K: 'a', Elems: []*Val{long(0), long(1), long(2)}})
 		b.set("longs", &Val{K: 'a', Elems: []*Val{long(3), long(1), long(4), long(5)}})
+	}
+	if a.K == 'o' && b.K == 'o' && c.Chance(1, 30) {
+		// a large keyed set: most members keep their identity, a few change
+		big := func(changed map[int]bool) *Val {
+			v := &Val{K: 'a'}
+			for i := 0; i < 70; i++ {
+				o := &Val{K: 'o'}
+				o.set("id", vn(float64(i)))
+				o.set("v", vn(float64(i%5)))
+				if changed[i] {
+					o.set("v", vs("changed"))
+					o.set("w", vn(1))
+				}
+				v.Elems = append(v.Elems, o)
+			}
+			return v
+		}
+		ch := map[int]bool{}
+		for i := 0; i < c.Range(2, 6); i++ {
+			ch[c.Int(70)] = true
+		}
+		a.set("members", big(nil))
+		b.set("members", big(ch))
+	}
+	if a.K == 'o' && b.K == 'o' && c.Chance(1, 3) {
+		// numbers close to one another: under a precision several pairings exist
+		a.set("near", &Val{K: 'a', Elems: []*Val{vn(15), vn(10), vn(3)}})
+		b.set("near", &Val{K: 'a', Elems: []*Val{vn(10), vn(20), vn(3.5)}})
 	}
 	if a.K == 'o' && b.K == 'o' && c.Chance(1, 2) {
 		a.set("gone", vs("x"))
